@@ -2,7 +2,7 @@
 From Coq Require Import ZArith List Bool String.
 From VD Require Import Base.Bytes Base.Text Base.Sexp Base.PixFmt Base.Struct.
 From VD Require Import Model.ClientMsgs Model.Keys Model.Pointer Model.ClientOps Spec.C2S.
-From VD Require Import Model.Server Extract.DispatchRfb Extract.DispatchCmd Extract.DispatchProxy.
+From VD Require Import Model.Server Extract.DispatchRfb Extract.DispatchCmd Extract.DispatchProxy Extract.DispatchReplay.
 Import ListNotations.
 Open Scope Z_scope.
 
@@ -92,4 +92,5 @@ Definition dispatch (name : list Z) (a : sexp) : sexp :=
   else if name_is name "shlex" then d_shlex a
   else if name_is name "quote" then d_quote a
   else if name_is name "proxy_run" then d_proxy_run a
+  else if name_is name "c18_roundtrip" then d_c18_roundtrip a
   else sErr.
